@@ -191,6 +191,11 @@ package requestmanager
 //@   modifies inProgressRequestStatus.state, rm.inProgressRequestStatuses[*], closedErr, closedProg, alloc, nTaskDone
 //@   ensures invRM(rm) && nTaskDone == old(nTaskDone) + 1
 //@   callsite TaskQueue.TaskDone: assert $p == p && $task == task
+//@   -- C04: a request that has been told to end while it was running (caller cancellation, failure status or hook error:
+//@   -- its own context has been cancelled) is retired when its task comes back - also when the task
+//@   -- ends with a pause that was consumed at the same block (a parked request would never close its channels)
+//@   ensures old(task.Topic in rm.inProgressRequestStatuses) && ctxErrOf[old(rm.inProgressRequestStatuses[task.Topic].ctx)] != nil
+//@           ==> !(task.Topic in rm.inProgressRequestStatuses)
 //@ -- an empty task (its request is gone) is reported done at once
 //@ func RequestManager.getRequestTask
 //@   lenient
